@@ -162,7 +162,7 @@ func (g *gen) wellFormed(size int) *sfeed {
 		if n > 1 && g.coin(0.3) {
 			out[n-1] = prefix + " with space"
 		}
-		if n > 2 && g.coin(0.15) {
+		if n > 2 && g.coin(0.3) {
 			// one id a proper prefix of another, the longer continuing with a digit ("TX" / "TX1")
 			out[n-2], out[n-1] = prefix+"X", prefix+"X1"
 		}
@@ -179,6 +179,11 @@ func (g *gen) wellFormed(size int) *sfeed {
 		}
 		return out
 	}
+	glueP := g.glueP
+	if glueP == 0 {
+		glueP = 0.12
+	}
+	wantGlue := g.coin(glueP)
 	nAg := 1 + g.r.Intn(3)
 	ag := add("agency.txt")
 	agIDs := ids("AG", nAg)
@@ -188,6 +193,9 @@ func (g *gen) wellFormed(size int) *sfeed {
 	}
 	g.zoneDates = zoneTransitionDays[ag.rows[0]["agency_timezone"]]
 	nRoutes := 1 + g.r.Intn(1+size/4)
+	if wantGlue && nRoutes < 2 {
+		nRoutes = 2
+	}
 	rt := add("routes.txt")
 	routeIDs := ids("R", nRoutes)
 	for i := 0; i < nRoutes; i++ {
@@ -228,6 +236,9 @@ func (g *gen) wellFormed(size int) *sfeed {
 		}
 	}
 	nSvc := 1 + g.r.Intn(3)
+	if wantGlue && nSvc < 2 {
+		nSvc = 2
+	}
 	svcIDs := ids("SV", nSvc)
 	hasCal := g.coin(0.8)
 	var inCal []bool
@@ -292,10 +303,13 @@ func (g *gen) wellFormed(size int) *sfeed {
 		g.r.Shuffle(len(sh.rows), func(i, j int) { sh.rows[i], sh.rows[j] = sh.rows[j], sh.rows[i] })
 	}
 	nTrips := 1 + g.r.Intn(1+size/3)
+	if wantGlue && nTrips < 2 {
+		nTrips = 2
+	}
 	tp := add("trips.txt")
 	tripIDs := ids("T", nTrips)
 	glued := -1
-	if nRoutes >= 2 && nSvc >= 2 && nTrips >= 2 && g.coin(0.12) {
+	if nRoutes >= 2 && nSvc >= 2 && nTrips >= 2 && wantGlue {
 		// (route, service) pairs that coincide once the two ids are glued with a separator: "a_b"+"c" and "a"+"b_c"
 		sep := g.pick([]string{"_", "|", "/", ":", " ", "-", ";", ""})
 		rename := func(tables []string, col string, from, to string) {
@@ -329,7 +343,13 @@ func (g *gen) wellFormed(size int) *sfeed {
 		}
 		tp.rows = append(tp.rows, r)
 	}
-	if g.coin(0.5) {
+	prefixPair := false
+	for i := 0; i+1 < nTrips; i++ {
+		if tripIDs[i]+"1" == tripIDs[i+1] {
+			prefixPair = true
+		}
+	}
+	if prefixPair || g.coin(0.5) {
 		fq := add("frequencies.txt")
 		if nTrips >= 2 && g.coin(0.35) {
 			// one trip with more windows than any small fixed block holds, another trip's windows among and after them
@@ -413,6 +433,14 @@ func (g *gen) presentation(f *sfeed) *presentation {
 			"archive/2023/stops.txt", "drafts/transfers.txt", "old/stop_times.txt", "backup/agency.txt", "x/calendar_dates.txt", "Stops.txt", "stops.txt.bak",
 			"archive/shapes.txt", "gtfs/frequencies.txt", "feed/calendar.txt", "a/b/c/transfers.txt", "old/shapes.txt",
 			"./stops.txt", "\\agency.txt", "a/../trips.txt", "/routes.txt", "./stop_times.txt", "x/../../calendar_dates.txt", "//stops.txt"}))
+	}
+	if g.coin(0.25) {
+		// a table the feed does not have at top level, present only as an unknown member in a sub-folder: still absent
+		for _, tn := range []string{"transfers.txt", "shapes.txt", "frequencies.txt", "calendar.txt"} {
+			if f.table(tn) == nil && g.coin(0.7) {
+				p.members = append(p.members, g.pick([]string{"archive/", "old/2023/", "drafts/", "x/y/"})+tn)
+			}
+		}
 	}
 	g.r.Shuffle(len(p.members), func(i, j int) { p.members[i], p.members[j] = p.members[j], p.members[i] })
 	return p
